@@ -117,3 +117,47 @@ Theorem C19_leaf_types_never_run_out_of_fuel :
   wrapper_type tm t = true -> (tdepth t < fuel)%nat -> defined (decode tm w fuel t j cur).
 Proof. exact wrapper_decode_terminates. Qed.
 Print Assumptions C19_leaf_types_never_run_out_of_fuel.
+
+(* "never loops", for EVERY generated type, recursive ones included.  The decoder hands the same
+   JSON value on only from a struct to its embedded (fragment) structs and from an interface to
+   its implementations; in a type map where those edges form no cycle (Go rejects a struct that
+   embeds itself; Corr/Rtcorr.v evaluates [same_json_acyclicb] on the type map of every explored
+   program) decoding ANY JSON value into ANY type is defined for all large enough fuels, and the
+   bound depends on the value only through its nesting depth *)
+From Verif Require Import Rt.Acyclic Proofs.DecodeTerm.
+Theorem C19_decode_terminates :
+  forall tm, same_json_acyclic tm -> forall w t j cur,
+  exists n, forall m, (n <= m)%nat -> defined (decode tm w m t j cur).
+Proof. exact decode_terminates. Qed.
+Print Assumptions C19_decode_terminates.
+
+Theorem C19_fuel_bound_depends_on_depth_only :
+  forall tm, same_json_acyclic tm -> forall w t d,
+  exists n, forall m j cur, (jdepth j <= d)%nat -> (n <= m)%nat -> defined (decode tm w m t j cur).
+Proof. exact decode_terminates_depth. Qed.
+Print Assumptions C19_fuel_bound_depends_on_depth_only.
+
+(* ... so the model assigns every input ONE result (a value, an error or a panic), the same for
+   every sufficient fuel *)
+Theorem C19_decode_total :
+  forall tm, same_json_acyclic tm -> forall w t j cur,
+  exists n r, r <> OutOfFuel /\ forall m, (n <= m)%nat -> decode tm w m t j cur = r.
+Proof. exact decode_total. Qed.
+Print Assumptions C19_decode_total.
+
+Theorem C19_acyclicity_check_is_sound :
+  forall tm, same_json_acyclicb tm = true -> same_json_acyclic tm.
+Proof. exact same_json_acyclicb_sound. Qed.
+Print Assumptions C19_acyclicity_check_is_sound.
+
+(* non-vacuity: a recursive type map (T -> *T, []T, an interface with two implementations, one
+   embedding a fragment struct that leads back to T) passes the check ... *)
+Theorem C19_recursive_types_are_covered : same_json_acyclicb r_tm = true.
+Proof. exact r_tm_acyclicb. Qed.
+
+(* ... and the hypothesis is needed: for a struct that embeds itself the model's decoder runs
+   out of every fuel *)
+Theorem C19_self_embedding_struct_diverges :
+  forall n cur, decode loop_tm true n (GStruct (b "A")) (JObj []) cur = OutOfFuel.
+Proof. exact loop_tm_diverges. Qed.
+Print Assumptions C19_self_embedding_struct_diverges.
